@@ -437,20 +437,6 @@ impl MqttState {
     }
 
     fn handle_incoming_pubcomp(&mut self, pubcomp: &PubComp) -> Result<Option<Packet>, StateError> {
-        let outgoing = self.check_collision(pubcomp.pkid).map(|publish| {
-            // the released publish is in flight from now on: it has to be acknowledged and,
-            // if the connection breaks first, retransmitted
-            self.outgoing_pub[publish.pkid as usize] = Some(publish.clone());
-            self.inflight += 1;
-
-            let pkid = publish.pkid;
-            let event = Event::Outgoing(Outgoing::Publish(pkid));
-            self.events.push_back(event);
-            self.collision_ping_count = 0;
-
-            Packet::Publish(publish)
-        });
-
         if !self.outgoing_rel.contains(pubcomp.pkid as usize) {
             error!("Unsolicited pubcomp packet: {:?}", pubcomp.pkid);
             return Err(StateError::Unsolicited(pubcomp.pkid));
@@ -466,6 +452,22 @@ impl MqttState {
         }
 
         self.inflight -= 1;
+
+        // the packet id is free now: release a publish that was waiting for it
+        let outgoing = self.check_collision(pubcomp.pkid).map(|publish| {
+            // the released publish is in flight from now on: it has to be acknowledged and,
+            // if the connection breaks first, retransmitted
+            self.outgoing_pub[publish.pkid as usize] = Some(publish.clone());
+            self.inflight += 1;
+
+            let pkid = publish.pkid;
+            let event = Event::Outgoing(Outgoing::Publish(pkid));
+            self.events.push_back(event);
+            self.collision_ping_count = 0;
+
+            Packet::Publish(publish)
+        });
+
         Ok(outgoing)
     }
 
